@@ -325,7 +325,7 @@ def work(item):
     def rp(what):
         def f(model):
             ps = [model["params"].get(x, 0.0) for x in names]
-            fr = model.get("free", {})
+            fr = model.get("vars", {})
             sc = [(fr.get(f"alpha{i}_re", 1.0), fr.get(f"alpha{i}_im", 0.0)) for i in range(max(nsc, 1))]
             ok, obs = _num((tier, idx), ps, sc, what)
             return ok, {"tier": tier, "idx": idx, "spec": name, "params": ps, "scalars": sc, "what": what, "observed": obs}
